@@ -20,7 +20,7 @@ TIME = {'quick': 110, 'thorough': 1500}
 
 @st.composite
 def cases(draw, tier='quick'):
-    case = draw(inf.est_cases(min_m=1, max_m=5, zeros=False, iters=(1, 20, 200), max_attrs=4 if tier == 'quick' else 5, cap=256 if tier == 'quick' else 1024))
+    case = draw(inf.est_cases(min_m=1, max_m=5, zeros=False, iters=(1, 20, 200, 0), max_attrs=4 if tier == 'quick' else 5, cap=256 if tier == 'quick' else 1024))
     attrs, shape = case['domain']['attrs'], case['domain']['shape']
     case['zeros'] = draw(inf.zero_specs(attrs, shape, case['witness'], allow_empty=draw(st.integers(0, 9)) == 0))
     case['warm_start'] = draw(st.booleans())
@@ -64,21 +64,25 @@ def run_case(case):
     tot = float(model.total)
     rng = np.random.Generator(np.random.PCG64(case['order_seed']))
     allowed = (~mask).astype(float)
-    for r in range(0, len(attrs) + 1):
-        for sub in itertools.combinations(attrs, r):
-            want = [str(a) for a in (rng.permutation(list(sub)) if r > 1 else sub)]
-            v = np.asarray(model.project(tuple(want)).values, dtype=float)
-            if not np.all(np.isfinite(v)):
-                return finish(out.fail('invalid:nonfinite', 'project(%s) has NaN/inf entries' % (want,)), case, X, mask, tt)
-            if np.min(v) < -1e-9 * tot:
-                return finish(out.fail('invalid:negative', 'project(%s) has entry %r' % (want, float(np.min(v)))), case, X, mask, tt)
-            if abs(float(v.sum()) - tot) > 1e-8 * tot:
-                return finish(out.fail('invalid:sum', 'project(%s) sums to %r, total %r' % (want, float(v.sum()), tot)), case, X, mask, tt)
-            dead = oracles.marg(allowed, attrs, want) == 0
-            if np.any(dead) and float(np.max(v[dead])) > 1e-60 * tot:
-                i = np.unravel_index(np.argmax(np.where(dead, v, -1)), v.shape)
-                return finish(out.fail('mass_on_zero:project', 'project(%s) puts %r of total %r on structurally impossible cell %s' % (
-                    want, float(v[i]), tot, tuple(int(x) for x in i))), case, X, mask, tt)
+    def sweep(tag):
+        for r in range(0, len(attrs) + 1):
+            for sub in itertools.combinations(attrs, r):
+                want = [str(a) for a in (rng.permutation(list(sub)) if r > 1 else sub)]
+                v = np.asarray(model.project(tuple(want)).values, dtype=float)
+                if not np.all(np.isfinite(v)):
+                    return finish(out.fail('invalid:nonfinite' + tag, 'project(%s) has NaN/inf entries' % (want,)), case, X, mask, tt)
+                if np.min(v) < -1e-9 * tot:
+                    return finish(out.fail('invalid:negative' + tag, 'project(%s) has entry %r' % (want, float(np.min(v)))), case, X, mask, tt)
+                if abs(float(v.sum()) - tot) > 1e-6 * tot:      # (same resolution argument as C08)
+                    return finish(out.fail('invalid:sum' + tag, 'project(%s) sums to %r, total %r' % (want, float(v.sum()), tot)), case, X, mask, tt)
+                dead = oracles.marg(allowed, attrs, want) == 0
+                if np.any(dead) and float(np.max(v[dead])) > 1e-60 * tot:
+                    i = np.unravel_index(np.argmax(np.where(dead, v, -1)), v.shape)
+                    return finish(out.fail('mass_on_zero:project' + tag, 'project(%s) puts %r of total %r on structurally impossible cell %s' % (
+                        want, float(v[i]), tot, tuple(int(x) for x in i))), case, X, mask, tt)
+        return None
+    res = sweep('')
+    if res is not None: return res
     dv = np.asarray(model.datavector(flatten=False), dtype=float)
     if not np.all(np.isfinite(dv)):
         return finish(out.fail('invalid:nonfinite', 'datavector has NaN/inf'), case, X, mask, tt)
@@ -91,6 +95,9 @@ def run_case(case):
         for rec in recs:
             if mask[tuple(int(x) for x in rec)]:
                 return finish(out.fail('mass_on_zero:synthetic_' + method, 'synthetic record %s lies in a declared-impossible cell' % (list(map(int, rec)),)), case, X, mask, tt)
+    # generating records is a read-only use of the model: every answer afterwards is as before
+    res = sweep(':after_synthetic_data')
+    if res is not None: return res
     return finish(out, case, X, mask, tt)
 
 
